@@ -33,6 +33,9 @@ fn registrations_reach_the_schema_in_order_with_every_modifier() {
         .error_handler(ErrorHandler { coordinates: co("EH1", "error_handler") });
     bp.constructor(Constructor { coordinates: co("C2", "transient") }).lifecycle(Lifecycle::Transient).never_clone().warn(Lint::Unused);
     bp.constructor(Constructor { coordinates: co("C3", "singleton") }).lifecycle(Lifecycle::RequestScoped);
+    // the LAST level given for a lint wins, whatever came before and in between
+    bp.constructor(Constructor { coordinates: co("C4", "singleton") })
+        .deny(Lint::Unused).warn(Lint::ErrorFallback).lifecycle(Lifecycle::Singleton).allow(Lint::Unused).deny(Lint::ErrorFallback).warn(Lint::ErrorFallback);
     bp.wrap(WrappingMiddleware { coordinates: co("W", "wrap") });
     bp.pre_process(PreProcessingMiddleware { coordinates: co("PRE", "pre_process") }).error_handler(ErrorHandler { coordinates: co("EH2", "error_handler") });
     bp.post_process(PostProcessingMiddleware { coordinates: co("POST", "post_process") });
@@ -54,7 +57,7 @@ fn registrations_reach_the_schema_in_order_with_every_modifier() {
         s::Component::PostProcessingMiddleware(_) => "post", s::Component::Route(_) => "route", s::Component::ConfigType(_) => "cfg",
         s::Component::PrebuiltType(_) => "prebuilt", s::Component::FallbackRequestHandler(_) => "fallback", s::Component::ErrorObserver(_) => "eo",
         s::Component::ErrorHandler(_) => "eh", s::Component::Import(_) => "import", s::Component::RoutesImport(_) => "routes", s::Component::NestedBlueprint(_) => "nested" }).collect();
-    assert_eq!(kinds, ["ctor", "ctor", "ctor", "wrap", "pre", "post", "route", "cfg", "cfg", "prebuilt", "fallback", "eo", "eh", "import", "routes"], "registration order");
+    assert_eq!(kinds, ["ctor", "ctor", "ctor", "ctor", "wrap", "pre", "post", "route", "cfg", "cfg", "prebuilt", "fallback", "eo", "eh", "import", "routes"], "registration order");
 
     let s::Component::Constructor(c1) = &v.components[0] else { panic!() };
     assert_eq!(c1.coordinates, sco("C1", "request_scoped"));
@@ -67,21 +70,23 @@ fn registrations_reach_the_schema_in_order_with_every_modifier() {
     assert_eq!(c2.lints.get(&s::Lint::Unused), Some(&s::LintSetting::Warn));
     let s::Component::Constructor(c3) = &v.components[2] else { panic!() };
     assert_eq!((c3.lifecycle, c3.cloning_policy, c3.lints.len()), (Some(s::Lifecycle::RequestScoped), None, 0));
-    let s::Component::PreProcessingMiddleware(pre) = &v.components[4] else { panic!() };
+    let s::Component::Constructor(c4) = &v.components[3] else { panic!() };
+    assert_eq!(c4.lints.iter().map(|(k, v)| (*k, *v)).collect::<Vec<_>>(), vec![(s::Lint::Unused, s::LintSetting::Allow), (s::Lint::ErrorFallback, s::LintSetting::Warn)], "the last level given for a lint must win");
+    let s::Component::PreProcessingMiddleware(pre) = &v.components[5] else { panic!() };
     assert_eq!(pre.error_handler.as_ref().unwrap().coordinates, sco("EH2", "error_handler"));
-    let s::Component::PostProcessingMiddleware(post) = &v.components[5] else { panic!() };
+    let s::Component::PostProcessingMiddleware(post) = &v.components[6] else { panic!() };
     assert!(post.error_handler.is_none() && post.coordinates == sco("POST", "post_process"));
-    let s::Component::Route(r) = &v.components[6] else { panic!() };
+    let s::Component::Route(r) = &v.components[7] else { panic!() };
     assert!(loc_ok(&r.registered_at, here(l_route)) && loc_ok(&r.error_handler.as_ref().unwrap().registered_at, here(l_route)));
-    let s::Component::ConfigType(cfg) = &v.components[7] else { panic!() };
+    let s::Component::ConfigType(cfg) = &v.components[8] else { panic!() };
     assert_eq!((cfg.default_if_missing, cfg.include_if_unused, cfg.cloning_policy), (Some(true), Some(true), Some(s::CloningPolicy::CloneIfNecessary)));
-    let s::Component::ConfigType(cfg2) = &v.components[8] else { panic!() };
+    let s::Component::ConfigType(cfg2) = &v.components[9] else { panic!() };
     assert_eq!((cfg2.default_if_missing, cfg2.include_if_unused, cfg2.cloning_policy), (Some(false), None, Some(s::CloningPolicy::NeverClone)));
-    let s::Component::PrebuiltType(pb) = &v.components[9] else { panic!() };
+    let s::Component::PrebuiltType(pb) = &v.components[10] else { panic!() };
     assert_eq!(pb.cloning_policy, Some(s::CloningPolicy::CloneIfNecessary));
-    let s::Component::Import(im) = &v.components[13] else { panic!() };
+    let s::Component::Import(im) = &v.components[14] else { panic!() };
     assert_eq!((im.sources.clone(), im.relative_to.as_str()), (s::Sources::Some(vec!["crate::a".into(), "dep".into()]), "my_pkg"));
-    let s::Component::RoutesImport(ri) = &v.components[14] else { panic!() };
+    let s::Component::RoutesImport(ri) = &v.components[15] else { panic!() };
     assert_eq!(ri.sources, s::Sources::All);
 }
 
@@ -98,10 +103,13 @@ fn nesting_prefixes_and_domains_stay_where_they_were_put() {
     bp.prefix("/first").prefix("/api").domain("a.example.com").domain("{sub}.example.com").nest(child);
     bp.domain("admin.example.com").routes(Import { sources: Sources::All, relative_to: "my_pkg", created_at: at() });
     bp.nest(Blueprint::new());
+    // a domain guard given BEFORE a prefix (and a prefix overridden after a domain) must survive
+    bp.domain("api.example.com").prefix("/v1").nest(Blueprint::new());
+    bp.prefix("/old").domain("x.example.com").prefix("/new").nest(Blueprint::new());
     bp.route(Route { coordinates: co("AFTER", "route") });
 
     let v = read_back(&bp, "nested");
-    assert_eq!(v.components.len(), 5);
+    assert_eq!(v.components.len(), 7);
     let s::Component::NestedBlueprint(n) = &v.components[1] else { panic!("second registration must be the nested blueprint") };
     assert_eq!(n.path_prefix.as_ref().unwrap().path_prefix, "/api", "a later prefix on the same modifier replaces the earlier one");
     assert_eq!(n.domain.as_ref().unwrap().domain, "{sub}.example.com");
@@ -116,7 +124,11 @@ fn nesting_prefixes_and_domains_stay_where_they_were_put() {
     assert!(matches!(&r.blueprint.components[..], [s::Component::RoutesImport(_)]));
     let s::Component::NestedBlueprint(e) = &v.components[3] else { panic!() };
     assert!(e.path_prefix.is_none() && e.domain.is_none() && e.blueprint.components.is_empty());
-    let (s::Component::Route(b), s::Component::Route(a)) = (&v.components[0], &v.components[4]) else { panic!() };
+    let s::Component::NestedBlueprint(dp) = &v.components[4] else { panic!() };
+    assert_eq!((dp.path_prefix.as_ref().map(|p| p.path_prefix.as_str()), dp.domain.as_ref().map(|d| d.domain.as_str())), (Some("/v1"), Some("api.example.com")), "domain given before prefix");
+    let s::Component::NestedBlueprint(pdp) = &v.components[5] else { panic!() };
+    assert_eq!((pdp.path_prefix.as_ref().map(|p| p.path_prefix.as_str()), pdp.domain.as_ref().map(|d| d.domain.as_str())), (Some("/new"), Some("x.example.com")), "prefix overridden after a domain");
+    let (s::Component::Route(b), s::Component::Route(a)) = (&v.components[0], &v.components[6]) else { panic!() };
     assert_eq!((b.coordinates.id.as_str(), a.coordinates.id.as_str()), ("BEFORE", "AFTER"));
     // loading what was persisted gives the same blueprint through the public loader too
     let p = std::env::temp_dir().join(format!("verif-c19-{}-load.ron", std::process::id()));
